@@ -206,3 +206,35 @@ package shimagent
 //@     argc(Writer.Write, n0, 1)[off(arg(Writer.Write, n0, 1))] * 16777216 + argc(Writer.Write, n0, 1)[off(arg(Writer.Write, n0, 1)) + 1] * 65536 +
 //@       argc(Writer.Write, n0, 1)[off(arg(Writer.Write, n0, 1)) + 2] * 256 + argc(Writer.Write, n0, 1)[off(arg(Writer.Write, n0, 1)) + 3] == len(data) &&
 //@     arg(Writer.Write, n0 + 1, 1) == data && argc(Writer.Write, n0 + 1, 1) == elems(data))
+
+//@ import certutil "github.com/theparanoids/ysshra/sshutils/cert"
+//@ func (*Server).AddHardCert(s, key, suffix)
+//@   requires s != nil && inv(s) && unheld(s)
+//@   modifies mstate(addrof(s.mu)), mapof(s.certs)
+//@   let l0 = old(calls(Agent.List))
+//@   let c0 = old(calls(CastSSHPublicKeyToCertificate))
+//@   ensures unheld(s) && inv(s)
+//@   ensures [locked-refuses] old(s.locked) ==> (result == errAgentLocked && calls(Agent.List) == l0 &&
+//@     forall(h#hashcode, true, ((h in dom(s.certs)) <==> old(h in dom(s.certs))) && s.certs[h] == old(s.certs[h])))
+//@   ensures [nil-key-refused] (!old(s.locked) && key == nil) ==> (result != nil && calls(Agent.List) == l0)
+//@   ensures [adding-again-is-a-no-op] (!old(s.locked) && key != nil && old(keyhash(key) in dom(s.certs))) ==> (result == nil && calls(Agent.List) == l0 &&
+//@     forall(h#hashcode, true, ((h in dom(s.certs)) <==> old(h in dom(s.certs))) && s.certs[h] == old(s.certs[h])))
+//@   ensures [only-certificates] (!old(s.locked) && key != nil && !old(keyhash(key) in dom(s.certs)) && !certBlob(blobid(key))) ==> (result != nil && calls(Agent.List) == l0)
+//@   ensures [failure-changes-nothing] result != nil ==> forall(h#hashcode, true, ((h in dom(s.certs)) <==> old(h in dom(s.certs))) && s.certs[h] == old(s.certs[h]))
+//@   ensures [accepted-only-with-a-listed-key] (!old(s.locked) && key != nil && !old(keyhash(key) in dom(s.certs)) && result == nil) ==>
+//@     (calls(Agent.List) == l0 + 1 && ret(Agent.List, l0, 1) == nil && calls(CastSSHPublicKeyToCertificate) == c0 + 1 && ret(CastSSHPublicKeyToCertificate, c0, 1) == nil &&
+//@      exists(j, 0 <= j && j < len(ret(Agent.List, l0, 0)), ret(Agent.List, l0, 0)[j] != nil &&
+//@        blobid(iface(ret(Agent.List, l0, 0)[j])) == blobid(ret(CastSSHPublicKeyToCertificate, c0, 0).Key)))
+//@   ensures [stored-under-its-own-hash] (!old(s.locked) && key != nil && !old(keyhash(key) in dom(s.certs)) && result == nil) ==>
+//@     ((keyhash(key) in dom(s.certs)) && s.certs[keyhash(key)] != nil && fresh(s.certs[keyhash(key)]) &&
+//@      s.certs[keyhash(key)].Certificate == ret(CastSSHPublicKeyToCertificate, c0, 0) &&
+//@      forall(h#hashcode, h != keyhash(key), ((h in dom(s.certs)) <==> old(h in dom(s.certs))) && s.certs[h] == old(s.certs[h])))
+//@   ensures [listing-failure-surfaces] (!old(s.locked) && key != nil && !old(keyhash(key) in dom(s.certs)) && calls(Agent.List) == l0 + 1 && ret(Agent.List, l0, 1) != nil) ==> result == ret(Agent.List, l0, 1)
+//@   ensures [unlisted-key-is-refused] (!old(s.locked) && key != nil && !old(keyhash(key) in dom(s.certs)) && calls(Agent.List) == l0 + 1 && ret(Agent.List, l0, 1) == nil &&
+//@     forall(j, 0 <= j && j < len(ret(Agent.List, l0, 0)), blobid(iface(ret(Agent.List, l0, 0)[j])) != blobid(ret(CastSSHPublicKeyToCertificate, c0, 0).Key))) ==> result == errAgentNotFoundKey
+//@   loop 1:
+//@     invariant agentKeys == ret(Agent.List, l0, 0) && calls(Agent.List) == l0 + 1 && ret(Agent.List, l0, 1) == nil && key != nil && !old(s.locked) &&
+//@       calls(CastSSHPublicKeyToCertificate) == c0 + 1 && ret(CastSSHPublicKeyToCertificate, c0, 1) == nil && cert == ret(CastSSHPublicKeyToCertificate, c0, 0) && cert != nil &&
+//@       keyHash == keyhash(key) && !old(keyhash(key) in dom(s.certs)) && wheld(s) && inv(s)
+//@     invariant forall(j, 0 <= j && j <= rangeindex, blobid(iface(agentKeys[j])) != blobid(cert.Key))
+//@     invariant forall(h#hashcode, true, ((h in dom(s.certs)) <==> old(h in dom(s.certs))) && s.certs[h] == old(s.certs[h]))
